@@ -1,7 +1,7 @@
 (* C11 — property theorems.  Only statements closed by [exact]; proofs live in Seal/*.v. *)
 From Coq Require Import List String ZArith Bool.
 From NV Require Import Seal.Syntax Seal.Eval Seal.TableTypes Seal.TableCheck Seal.Guard Seal.Typing
-     Seal.LogRel Seal.Fundamental Seal.Erasure Seal.Tail Seal.Keys Seal.Variants.
+     Seal.LogRel Seal.Fundamental Seal.Erasure Seal.Export Seal.Tail Seal.Keys Seal.Variants.
 Import ListNotations.
 Open Scope string_scope.
 
@@ -114,6 +114,23 @@ Theorem C11_parametric_annotation_same_result2 :
       exists m, eval cfg_real m p
                   (App (App (Ann (TForall "a" KType (TForall "b" KType (sty_ty names2 (SFun a1 (SFun a2 b))))) f) arg1) arg2) = r.
 Proof. exact parametric_annotation_same_result2. Qed.
+
+(* related computations at a first-order type export the same data (values and errors) *)
+Theorem C11_export_same :
+  forall d T t1 t2, data_ty T -> lift (OR d T) t1 t2 ->
+    forall n r, export n t2 = r -> r <> OutOfFuel -> exists m, export m t1 = r.
+Proof. exact export_same. Qed.
+
+(* in terms of what `nickel export` prints: `(f | forall a b. T) arg1 arg2` vs `f arg1 arg2` *)
+Theorem C11_parametric_annotation_same_export2 :
+  forall sg a1 a2 b f arg1 arg2,
+    scoped 2 (SFun a1 (SFun a2 b)) -> (forall i, is_svar (sg i) = false) ->
+    has_ty [] f (SFun a1 (SFun a2 b)) -> has_ty [] arg1 (inst sg a1) -> has_ty [] arg2 (inst sg a2) ->
+    data_ty (inst sg b) ->
+    forall n r, run_data cfg_real n (App (App f arg1) arg2) = r -> r <> OutOfFuel ->
+      exists m, run_data cfg_real m
+                  (App (App (Ann (TForall "a" KType (TForall "b" KType (sty_ty names2 (SFun a1 (SFun a2 b))))) f) arg1) arg2) = r.
+Proof. exact parametric_annotation_same_export2. Qed.
 
 (* ---- T1: record-row tails *)
 Theorem C11_tail_guarded :
